@@ -28,3 +28,56 @@ Theorem C13_offset_shader_partial : forall im ox oy a x y,
   shade (ShImageOffset im ExtPad ox oy a) x y = alpha_mul (img_at im (clampi (x + ox) 0 (i_w im - 1)) (clampi (y + oy) 0 (i_h im - 1))) a /\
   shade (ShImageOffset im ExtRepeat ox oy a) x y = alpha_mul (img_at im ((x + ox) mod i_w im) ((y + oy) mod i_h im)) a.
 Proof. intros. split; reflexivity. Qed.
+
+(* ---- bilinear range / exactness, integer translations (ImageProofs.v) ---- *)
+Require Import RQ.PixelProofs RQ.Target RQ.FillProofs RQ.ImageProofs.
+
+(* (7) "Bilinear returns the 4-bit-weighted interpolation of the four texels": the exact per-channel formula *)
+Theorem C13_bilinear_channel_formula : forall c t00 t10 t01 t11 dx dy, 0 <= dx <= 15 -> 0 <= dy <= 15 ->
+  chan c (bilinear_interpolation t00 t10 t01 t11 dx dy None) =
+  Z.shiftr (chan c t00 * ((16 - dx) * (16 - dy)) + chan c t10 * (dx * (16 - dy))
+            + chan c t01 * ((16 - dx) * dy) + chan c t11 * (dx * dy)) 8.
+Proof. exact bilinear_channel. Qed.
+Print Assumptions C13_bilinear_channel_formula.
+
+(* (8) "hence within their per-channel range" *)
+Theorem C13_bilinear_within_texel_range : forall c t00 t10 t01 t11 dx dy, 0 <= dx <= 15 -> 0 <= dy <= 15 ->
+  Z.min (Z.min (chan c t00) (chan c t10)) (Z.min (chan c t01) (chan c t11))
+  <= chan c (bilinear_interpolation t00 t10 t01 t11 dx dy None)
+  <= Z.max (Z.max (chan c t00) (chan c t10)) (Z.max (chan c t01) (chan c t11)).
+Proof. exact bilinear_in_range. Qed.
+Print Assumptions C13_bilinear_within_texel_range.
+
+(* (9) "exact at texel centres" *)
+Theorem C13_bilinear_exact_at_texel_centre : forall t00 t10 t01 t11, wf_px t00 ->
+  bilinear_interpolation t00 t10 t01 t11 0 0 None = t00.
+Proof. exact bilinear_exact_at_centre. Qed.
+Print Assumptions C13_bilinear_exact_at_texel_centre.
+
+(* (10) "and for pure integer translations": when the combined transform is an integer translation the shader chosen
+   (the integer-offset span shader) shows exactly the texel (x+ox, y+oy) scaled by the global alpha, and the general
+   matrix shader - either filter - would have produced the same pixel *)
+Theorem C13_integer_translation_is_a_texel_copy : forall ti im e f t alpha ox oy x y,
+  int_translation (xf_then ti t) ox oy -> -32768 <= ox <= 32767 -> -32768 <= oy <= 32767 ->
+  image_wf im -> 0 < i_w im -> 0 < i_h im -> 0 <= x < 65536 -> 0 <= y < 65536 -> x + ox < 32768 -> y + oy < 32768 ->
+  let a := Z.min (unit_to_u32 alpha) 255 in
+  shade (choose_shader ti (Image im e f t) alpha) x y =
+  shade (ShImageXf im e f (transform_to_fixed (half_pixel_sandwich (xf_then ti t)))
+                   (if a =? 255 then None else Some (alpha_to_alpha256 a))) x y
+  /\ shade (choose_shader ti (Image im e f t) alpha) x y = alpha_mul (fetch e im (x + ox) (y + oy)) (alpha_to_alpha256 a).
+Proof. exact integer_translation_routes_agree. Qed.
+Print Assumptions C13_integer_translation_is_a_texel_copy.
+
+(* (11) "draw_image_at(x, y) puts texel (i, j) on pixel (x+i, y+j)" - at the level of the shader composite builds *)
+Theorem C13_draw_image_at_places_texels_partial : forall ctm cx cy x y X Y im alpha,
+  int_translation ctm cx cy -> fint x X -> fint y Y ->
+  Z.abs cx < 2097152 -> Z.abs cy < 2097152 -> Z.abs X < 2097152 -> Z.abs Y < 2097152 ->
+  0 < i_w im < 16777216 -> 0 < i_h im < 16777216 ->
+  exists ti, xf_inverse ctm = Some ti /\
+    let a := alpha_to_alpha256 (Z.min (unit_to_u32 alpha) 255) in
+    let sh := choose_shader ti (Image im ExtPad Bilinear (draw_image_src x y im)) alpha in
+    sh = ShImageOffset im ExtPad (- cx - X) (- cy - Y) a /\
+    (forall px py, shade sh px py = alpha_mul (pad_fetch im (px - cx - X) (py - cy - Y)) a) /\
+    (forall i j, 0 <= i < i_w im -> 0 <= j < i_h im -> shade sh (cx + X + i) (cy + Y + j) = alpha_mul (img_at im i j) a).
+Proof. exact draw_image_at_texels. Qed.
+Print Assumptions C13_draw_image_at_places_texels_partial.
